@@ -459,3 +459,57 @@ def contracts():
     for c in extra:
         c.prop = PROP
     return _c09_base2() + extra
+
+
+
+# ---------------------------------------------------------------------------------------------
+# concrete probe: expressions over several parameters of one object, programs of one to three steps
+# (assignments, in-place mutation announced with trigger, bare trigger) run plainly and inside one batch,
+# watched and unwatched: the callback's last value and every later read agree with plain Python
+# ---------------------------------------------------------------------------------------------
+RX_BATCH_REPLAY = '''import sys, os, itertools
+sys.path.insert(0, os.environ.get('PYVC_REPO', '/repo'))
+import param
+bad = []
+class P(param.Parameterized):
+    a = param.Integer(default=1)
+    b = param.Integer(default=5)
+    items = param.List(default=[])
+SHAPES = {
+    'a*10 + len(items)': (lambda p: p.param.a.rx() * 10 + p.param.items.rx().rx.len(), lambda p: p.a * 10 + len(p.items)),
+    '(a + b) * (len(items) + 1)': (lambda p: (p.param.a.rx() + p.param.b.rx()) * (p.param.items.rx().rx.len() + 1), lambda p: (p.a + p.b) * (len(p.items) + 1)),
+    'len(items) - a': (lambda p: p.param.items.rx().rx.len() - p.param.a.rx(), lambda p: len(p.items) - p.a),
+}
+STEPS = {'a': lambda p: setattr(p, 'a', p.a + 2), 'b': lambda p: setattr(p, 'b', p.b + 3),
+         'mut+trigger': lambda p: (p.items.append('x'), p.param.trigger('items')),
+         'items': lambda p: setattr(p, 'items', p.items + ['y', 'z']),
+         'trigger-a': lambda p: p.param.trigger('a')}
+for (sname, (mk, plain)), n in itertools.product(SHAPES.items(), (1, 2, 3)):
+    for prog in itertools.product(STEPS, repeat=n):
+        for watched, ctx in itertools.product((True, False), ('batch', 'plain')):
+            p = P()
+            expr = mk(p)
+            seen = []
+            if watched:
+                expr.rx.watch(seen.append)
+            first = expr.rx.value
+            if ctx == 'batch':
+                with param.parameterized.batch_call_watchers(p):
+                    for s in prog: STEPS[s](p)
+            else:
+                for s in prog: STEPS[s](p)
+            want = plain(p)
+            label = '%s, %s%s: %s' % (sname, 'watched, ' if watched else '', ctx, ' ; '.join(prog))
+            if watched and seen and seen[-1] != want:
+                bad.append('%s: the last value delivered to the watch callback is %r, plain Python gives %r' % (label, seen[-1], want))
+            if watched and not seen and want != first:
+                bad.append('%s: the value changed from %r to %r and the watch callback was never called' % (label, first, want))
+            got = expr.rx.value
+            if got != want:
+                bad.append('%s: .rx.value reads %r, plain Python gives %r' % (label, got, want))
+if bad:
+    print('REPRODUCED: ' + bad[0]); sys.exit(1)
+print('NOT-REPRODUCED'); sys.exit(0)
+'''
+
+PROBES = globals().get("PROBES", []) + [("assignments and triggers inside one batch: watched expressions end at the plain-Python value", RX_BATCH_REPLAY)]
